@@ -23,9 +23,7 @@ def extract_playback(workdir, res, prelude, rust_text, tables_rs, loops, timeout
     cbmc_args = list(core.CBMC_BASE)
     # loop names are only known after codegen
     rc = core.run_cmd(["cargo", "kani", "--only-codegen", "--target-dir", tgt] + core.KANI_BASE, crate, log, timeout=1800)
-    ls = core.discover_table_loops(tgt)
-    if ls:
-        cbmc_args += ["--unwindset", ",".join("%s:%d" % (l, core.TABLE_LOOP_UNWIND) for l in ls)]
+    cbmc_args += core.unwindset_args(core.discover_loops(tgt, core.loop_patterns([res.h])))
     cmd = ["cargo", "kani", "--target-dir", tgt, "--exact", "--harness", "gen::" + res.h.name,
            "-Z", "concrete-playback", "--concrete-playback=print",
            "--harness-timeout", "%ds" % timeout] + core.KANI_BASE + ["--cbmc-args"] + cbmc_args
@@ -34,6 +32,8 @@ def extract_playback(workdir, res, prelude, rust_text, tables_rs, loops, timeout
     shutil.rmtree(tgt, ignore_errors=True)
     tests = re.findall(r"```\s*\n(.*?)```", text, re.S)
     tests = [t for t in tests if "concrete_playback_run" in t]
+    # Kani also emits playback tests for satisfied cover properties: those are witnesses, not failures
+    tests = [t for t in tests if not re.search(r"Check for `cover`", t)]
     return d, crate, tests
 
 
@@ -66,6 +66,12 @@ def native_run(crate, test_name, release, log):
             return "error"
     out = open(log, errors="replace").read()
     tail = out[out.rfind("$ "):]
+    # The harness body ran to completion without any failure if the only panic is Kani's
+    # end-of-playback bookkeeping (values consumed by stubs in the model are left over natively).
+    if "there were still these concrete values left over" in tail:
+        return "ok"
+    if re.search(r"Not enough det vals|ran out of concrete values", tail, re.I):
+        return "error"
     if re.search(r"test result: FAILED", tail) or re.search(r"\.\.\. FAILED", tail):
         return "failed"
     if re.search(r"test result: ok\. 1 passed", tail):
